@@ -247,6 +247,14 @@ def atom(kind, *args):
     return Poly.sym(key)
 
 
+def ite_of(c, x, y):
+    """the value `c ? x : y` for an undecided truth value c, remembering the comparison c came from (for case partitioning)"""
+    r = atom("ite", c.why, x, y)
+    if getattr(c, "hint", None) is not None:
+        ITE_REL[next(iter(r.symbols()))] = c.hint
+    return r
+
+
 def sdiv(a, b, signs):
     if b.is_const() and a.is_const() and b.const_value() != 0:
         x, y = a.const_value(), b.const_value()
@@ -582,14 +590,14 @@ class Evaluator:
             mm = re.match(r"^\w+ (.+?) (\S+) to (.+)$", rhs) or re.match(r"^freeze (.+?) (\S+)$", rhs)
             v = self.val(mm.group(2), env)
             if isinstance(v, Bool) and op == "sext":
-                v = atom("ite", v.why, Poly.const(-1), Poly.const(0)) if v.v is None else Poly.const(-1 if v.v else 0)
+                v = ite_of(v, Poly.const(-1), Poly.const(0)) if v.v is None else Poly.const(-1 if v.v else 0)
             env[dst] = v
             return None
         if op == "zext":
             mm = re.match(r"^zext (.+?) (\S+) to (.+)$", rhs)
             v = self.val(mm.group(2), env)
             if isinstance(v, Bool):
-                v = atom("ite", v.why, Poly.const(1), Poly.const(0)) if v.v is None else Poly.const(1 if v.v else 0)
+                v = ite_of(v, Poly.const(1), Poly.const(0)) if v.v is None else Poly.const(1 if v.v else 0)
             env[dst] = v
             return None
         if op == "invoke":
@@ -746,7 +754,7 @@ class Evaluator:
             mm = re.match(r"^store (.+?) (\S+), (.+?)\* (\S+?)(?:,.*)?$", rhs)
             v = self.val(mm.group(2), env)
             if isinstance(v, Bool):
-                v = atom("ite", v.why, Poly.const(1), Poly.const(0)) if v.v is None else Poly.const(1 if v.v else 0)
+                v = ite_of(v, Poly.const(1), Poly.const(0)) if v.v is None else Poly.const(1 if v.v else 0)
             p = self.val(mm.group(4), env)
             off = p - Poly.sym("out")
             if not off.is_const():
